@@ -11,8 +11,9 @@ META = {
     "engines": ["mirfacts", "srcfacts", "rules"],
     "technique": "static analysis: format templates decoded from MIR matched against the pest grammar AST and the match_nodes! consumer arms",
     "explanation": (
-        "R1 (writer ⊆ grammar, inverse on structure): the DSL writer is found structurally (exhaustive match on "
-        "Operation with a format! in every arm). For every variant its symbolic output — format templates decoded from "
+        "R1 (writer ⊆ grammar, inverse on structure): the DSL writer is found structurally (function returning String with an "
+        "exhaustive match on Operation). For every variant ALL strings it can return are synthesised symbolically over the writer and "
+        "its helpers (format templates, push_str/push/+, &mut String helpers, branch conditions kept) — format templates decoded from "
         "the MIR's fmt::Arguments byte templates, with placeholders typed from the resolved argument types (NaiveDate "
         "via %Y-%m-%d → date, the ticker String → ticker, Decimal Display → decimal, CurrencyAmount::code → currency code; "
         "helper format functions expanded) — is matched token-by-token against grammar rule `transaction`; the consumer arm "
